@@ -101,18 +101,20 @@ func ResolveFunc(p *ssa.Package, key string) *ssa.Function {
 // Running a property check.
 
 type ObligResult struct {
-	Name    string
-	Fn      string
-	Goals   int
-	Status  string // discharged | failed | undecided | known-finding
-	Solver  map[string]int
-	Seconds float64
-	Fail    *Goal
-	FailRes *SolveResult
-	Trivial int
-	Kind    string // proof | cover
-	Bounded string
-	Finding *KnownFinding
+	Name      string
+	Fn        string
+	Goals     int
+	Status    string // discharged | failed | undecided | known-finding
+	Solver    map[string]int
+	Seconds   float64
+	Fail      *Goal
+	FailRes   *SolveResult
+	Trivial   int
+	Kind      string // proof | cover
+	Bounded   string
+	Finding   *KnownFinding
+	Replayed  bool
+	Confirmed bool
 }
 
 type KnownFinding struct {
@@ -249,6 +251,16 @@ func (c *Checker) RunGoals(goals []*Goal, timeout time.Duration) []*ObligResult 
 		wg.Add(1)
 		go func() {
 			defer wg.Done()
+			if g.Raw != "" {
+				r := c.Solver.Solve(g.Oblig, g.Raw)
+				if r.Status == "sat" && g.Retry != nil {
+					if q2 := g.Retry(); q2 != "" {
+						r = c.Solver.Solve(g.Oblig+"-concrete", q2)
+					}
+				}
+				results[i] = gr{g, r}
+				return
+			}
 			// quantifier-free relaxation first: dropping quantified assumptions only
 			// weakens the premises, so `unsat` there is a proof of the full query.
 			if g.Expect == "unsat" && !strings.Contains(g.Goal.S, "(forall") && !strings.Contains(g.Goal.S, "(exists") {
